@@ -1256,7 +1256,10 @@ def r01_14_gregorian_fast_tables(ctx: Ctx) -> RuleResult:
                     _, r3 = _call_method(ctx, c, "_get_days_since_epoch", so, {fwd.value_params[0].arg: ymd}, {})
                     got = exact(r3)
                     rr.states += 1
-                    if got != want:
+                    outside = not (first <= y <= last)
+                    if got != want and not (outside and got is None):
+                        # outside the table the generic path is taken (year cache: not an exact value for the analysis); only a
+                        # definite wrong answer counts there
                         bad_f = bad_f or (y, m, d, got, want)
                     got_box.clear()
                     I = interp(ctx)
@@ -1265,7 +1268,7 @@ def r01_14_gregorian_fast_tables(ctx: Ctx) -> RuleResult:
                     I.analyse(dec, params={dec.value_params[0].arg: Iv(want, want)})
                     rr.states += 1
                     triples = {(int(a.lo), int(b.lo), int(cc.lo)) for a, b, cc in got_box if all(isinstance(x, Iv) and x.lo == x.hi for x in (a, b, cc))}
-                    if triples != {(y, m, d)}:
+                    if triples != {(y, m, d)} and not (outside and not triples):
                         bad_d = bad_d or (want, sorted(triples), (y, m, d))
         rr.inst()
         if bad_f is None:
